@@ -18,6 +18,7 @@ import (
 
 	"github.com/samber/lo"
 
+	"github.com/fatedier/frp/pkg/config/types"
 	v1 "github.com/fatedier/frp/pkg/config/v1"
 	"github.com/fatedier/frp/pkg/msg"
 	plugin "github.com/fatedier/frp/pkg/plugin/server"
@@ -64,6 +65,7 @@ func siteCert() (string, string) {
 func siteRun(user, pname string, explicit bool) string {
 	pst.mu.Lock()
 	pst.wire = nil
+	pst.wireGen++
 	pst.mu.Unlock()
 	t0 := time.Now()
 	tick := func(what string) {
@@ -87,6 +89,11 @@ func siteRun(user, pname string, explicit bool) string {
 	cfg.BindPort = port
 	cfg.Transport.TCPMux = lo.ToPtr(false)
 	cfg.UserConnTimeout = 1
+	// the scenarios ask for stcp proxies (a plugin may still turn one into a tcp proxy with a port of the server's choice:
+	// a small range, away from the ephemeral ports).  Each of the two port managers of a Service otherwise
+	// keeps a 65535-entry table that its cleaning goroutine (never stopped) holds on to for the rest of the process:
+	// ~3 MB per Service, several GB over a long run
+	cfg.AllowPorts = []types.PortsRange{{Start: 13000, End: 13127}}
 	cfg.Transport.TLS.CertFile, cfg.Transport.TLS.KeyFile = siteCert() // else frps generates an RSA key per start (~200 ms)
 	cfg.HTTPPlugins = append([]v1.HTTPPluginOptions{}, pst.httpRegs...)
 	svr, err := server.NewService(cfg)
@@ -291,7 +298,8 @@ func siteRun(user, pname string, explicit bool) string {
 	wc := dial()
 	if wc != nil {
 		defer wc.Close()
-		_ = msg.WriteMsg(wc, &msg.NewWorkConn{RunID: lr.RunID, Timestamp: ts, PrivilegeKey: util.GetAuthKey("", ts)})
+		// timestamp 0: the credentials the NewWorkConn plugins see are the same in every run
+		_ = msg.WriteMsg(wc, &msg.NewWorkConn{RunID: lr.RunID, Timestamp: 0, PrivilegeKey: util.GetAuthKey("", 0)})
 	}
 
 	tick("close")
